@@ -110,7 +110,16 @@ pub fn sexp(input: &str) -> nom::IResult<&str, Expr> {
 }
 
 pub fn num(input: &str) -> nom::IResult<&str, u64> {
-    map_res(digit1, |s: &str| s.parse())(input)
+    let (rest, digits) = digit1(input)?;
+    match digits.parse() {
+        Ok(n) => Ok((rest, n)),
+        // a numeral that does not fit 64 bits is an error, not something else to try parsing as
+        // (it would otherwise be accepted by the name parser and become a variable)
+        Err(_) => Err(nom::Err::Failure(nom::error::Error::new(
+            input,
+            nom::error::ErrorKind::Digit,
+        ))),
+    }
 }
 
 pub fn name(input: &str) -> nom::IResult<&str, String> {
